@@ -44,7 +44,7 @@ def build_config(scn):
     nsfx = deco.get('name_suffix', '')
     for i, r in enumerate(runs):
         bench = {'B%d' % i: _bench_details(r)}
-        suite = {'gauge_adapter': 'RebenchLog' if r.get('adapter', True) else 'NoSuchThing',
+        suite = {'gauge_adapter': (r.get('gauge') or 'RebenchLog') if r.get('adapter', True) else 'NoSuchThing',
                  'command': '%(benchmark)s %(invocation)s' + deco.get('cmd_suffix', ''),
                  'benchmarks': [bench]}
         # settings at two configuration levels: the suite (general) and the benchmark (specific, wins);
@@ -98,7 +98,30 @@ def _bench_details(r):
     return d
 
 
-RUN_RE = re.compile(r'^\S*/x(\d+) B(\d+) (\d+)')
+RUN_RE = re.compile(r'(?:^|\s)\S*/x(\d+) B(\d+) (\d+)')
+
+
+def time_wrapper(args):
+    """how a command line is wrapped by the Time adapter: '' | 'posix' | 'formatted:<binary>'"""
+    if not isinstance(args, str):
+        return ''
+    m = re.match(r'^(\S*time) (-p|-f) ', args)
+    if not m:
+        return ''
+    return 'posix' if m.group(2) == '-p' else 'formatted:' + m.group(1)
+
+
+def render_time_output(k, o, wrapper):
+    """a `time` binary prints what its command line asks for: the custom format (-f) or the POSIX one (-p)"""
+    lines = []
+    for j in range(1, min(1, o.get('dps', 0)) + 1):
+        if wrapper.startswith('formatted'):
+            lines += ['max rss (kb): %d' % (7 * j), 'wall-time (secounds): %d.%03d' % (k, j)]
+        else:
+            lines += ['real %d.%03d' % (k, j), 'user 0.50', 'sys 0.25']
+    if o.get('marker'):
+        lines.append('Error: simulated')
+    return ''.join(l + '\n' for l in lines)
 
 
 def render_output(i, k, o, deco=None):
@@ -136,6 +159,8 @@ class Script(object):
         self.lock = threading.Lock()
         self.gate = None       # thread controller (parallel scenarios)
         self.unknown = []
+        self.commands = []     # [run, invocation, time wrapper] of every benchmark start
+        self.probes = []       # argv[0] of the Time adapter's availability probes
         # builds with identical text are told apart by the directory they run in
         self.dir_build = dict((r['exe'], r['ebuild']) for r in scn['runs']
                               if r.get('file') is not None and r.get('ebuild') is not None
@@ -146,7 +171,7 @@ class Script(object):
         if args == '/bin/sh':
             # a build: stdin is not yet written at Popen time; the outcome is fixed per build id at communicate
             return _BuildOutcome(self, rec)
-        m = RUN_RE.match(args if isinstance(args, str) else '')
+        m = RUN_RE.search(args if isinstance(args, str) else '')
         if not m:
             with self.lock:
                 self.unknown.append(str(args)[:200])
@@ -157,6 +182,8 @@ class Script(object):
             self.count[i] = k
             self.log.append(('start', i, inv))
             rec['run'], rec['inv'], rec['k'] = i, inv, k
+            wrapper = time_wrapper(args)
+            self.commands.append([i, inv, wrapper])
         sc = self.sess['scripts'][i] if i < len(self.sess['scripts']) else []
         o = sc[k - 1] if k <= len(sc) else DEFAULT_FAIL
         if self.gate is not None:
@@ -165,7 +192,32 @@ class Script(object):
             return drive.Outcome(oserror=o['oserror'])
         if o.get('interrupt'):
             return drive.Outcome(interrupt=True)
+        if self.scn['runs'][i].get('gauge') == 'Time':
+            return drive.Outcome(o['rc'], render_time_output(k, o, wrapper))
         return drive.Outcome(o['rc'], render_output(i, k, o, self.scn.get('deco')))
+
+
+class TimeProbe(object):
+    """stands in for the `subprocess` module inside rebench.interop.time_adapter: the availability probes
+    (`/usr/bin/time -f ...`, `/opt/local/bin/gtime -f ...`) are answered from the session's `time_probe`
+    ({binary: return code or 'oserror'}) and are scheduling points of the thread controller"""
+    PIPE = -1
+    STDOUT = -2
+
+    def __init__(self, script):
+        self.script = script
+
+    def call(self, argv, **_kw):
+        name = argv[0] if isinstance(argv, (list, tuple)) else str(argv).split(' ')[0]
+        with self.script.lock:
+            self.script.probes.append(name)
+            n = len(self.script.probes)
+        if self.script.gate is not None:
+            self.script.gate.block(-n)
+        ans = (self.script.sess.get('time_probe') or {}).get(name, 0)
+        if ans == 'oserror':
+            raise OSError(2, 'No such file or directory')
+        return int(ans)
 
 
 class _BuildOutcome(drive.Outcome):
@@ -240,16 +292,30 @@ def run_session(workdir, scn, sess, timeout_guard=None):
         script.gate = controller
         controller.start()
     rb_main.ReBench.execute_experiment = wrapped
+    ta_saved = None
+    try:
+        from rebench.interop import time_adapter as ta
+        ta_saved = (ta, ta.subprocess)
+        ta.subprocess = TimeProbe(script)
+        # the probe result is class state: every session of this process starts like a fresh ReBench process
+        ta.TimeAdapter._completed_time_availability_check = False
+        ta.TimeAdapter._use_formatted_time = False
+        ta.TimeAdapter._time_bin = None
+    except (ImportError, AttributeError):
+        ta_saved = None
     try:
         res = drive.run_session(workdir, argv, script, cpu_count=sess.get('cpu', 1), random_choice=choice)
     finally:
         rb_main.ReBench.execute_experiment = orig
+        if ta_saved is not None:
+            ta_saved[0].subprocess = ta_saved[1]
         if controller is not None:
             controller.stop()
     obs = {'status': res.status(), 'exit': res.exit, 'crash': list(res.crash) if res.crash else None,
            'traceback': ('Traceback (most recent call last)' in res.stdout + res.stderr),
            'order': grabbed.get('order'), 'loaded': grabbed.get('loaded'),
            'log': [list(x) for x in script.log], 'unknown_starts': script.unknown,
+           'commands': script.commands, 'probes': script.probes,
            'nchoices': pos['i'], 'out_tail': (res.stdout + res.stderr)[-600:]}
     if controller is not None:
         obs['released'] = controller.released
@@ -379,11 +445,12 @@ class Controller(threading.Thread):
         with self.cv:
             if self.T is None:
                 # sequential phase in the main thread (exclusive runs): nothing to interleave
-                self.steps.append(['start', run, inv])
-                self.steps.append(['finish', run])
+                if run >= 0:
+                    self.steps.append(['start', run, inv])
+                    self.steps.append(['finish', run])
                 return
             self.blocked[run] = ev
-            self.steps.append(['start', run, inv])
+            self.steps.append(['start', run, inv] if run >= 0 else ['probe', run, None])
             self.cv.notify_all()
         if not ev.wait(60):
             self.error = 'blocked process of run %s was never released' % run
@@ -403,7 +470,7 @@ class Controller(threading.Thread):
                     r = runs[c % len(runs)]
                     ev = self.blocked.pop(r)
                     self.released.append(r)
-                    self.steps.append(['finish', r])
+                    self.steps.append(['finish', r] if r >= 0 else ['probe-done', r])
                     ev.set()
                     deadline = time.time() + 90
                     continue
